@@ -314,7 +314,8 @@ def get_rtlir_dtype( obj ):
 def _get_nbits_from_value( value ):
   if -1 <= value <= 1:
     return 1
+  # exact integer arithmetic: float log2 is off by one from 2**49 on
   if value < 0:
-    return ceil(log2(abs(value)))
+    return ( abs(value) - 1 ).bit_length()
   else:
-    return ceil(log2(value+1))
+    return value.bit_length()
